@@ -190,10 +190,20 @@ def run_case(cls, case_idx, timeout_ms=None):
             res["events"].append([str(x) for x in ev])
         # vacuity: hypotheses of at least one reaching path are satisfiable
         if not covered and p.outcome not in ("unsupported", "segment"):
-            r = p.cx.check_sat(timeout_ms=5000)
-            if r == z3.sat:
+            # `ensures false` must not be provable: the hypotheses of a path reaching the post-condition
+            # are not contradictory (sat, or - with quantified invariants - at least not refutable)
+            r = p.cx.check_sat(timeout_ms=1500)
+            if r != z3.unsat:
                 covered = True
+                res["cover"] = str(r)
         for ob in p.cx.obligations:
+            if os.environ.get("VF_DUMP") and __import__("re").search(os.environ["VF_DUMP"], ob.name) and ob.goal is not True:
+                sd = z3.Solver()
+                for h in ob.hyps:
+                    sd.add(h)
+                sd.add(z3.Not(ob.goal))
+                with open(f"/tmp/vfdump_{cls.name}_{pi}_{ob.name.replace('/', '_')}.smt2", "w") as fdump:
+                    fdump.write(sd.to_smt2())
             discharge(ob, tmo)
             if ob.status == "unknown" and os.environ.get("VF_NO_CVC5") != "1":
                 try:
